@@ -65,6 +65,52 @@ def r1(cx):
                'exits_checked': len(body.return_blocks()), 'leaking_exits': [e['label'] for e in exits]})
 
 
+@RS.rule('C09.R1c', 'K-TABLE', 'saving the target fd: Ok => saved, EBADF => nothing to save, any other errno fails the redirection')
+def r1c(cx):
+    F = cx.F
+    h = F.hir_of(PERFORM)
+    cx.fn(PERFORM)
+    # the expression that initialises `save`
+    lets = [x for x in H.walk_lets(h['body']) if x['pat'].get('k') == 'bind' and x['pat'].get('name') == 'save']
+    cx.require(len(lets) == 1, 'let save = ... not found in perform')
+    init = H.peel(lets[0]['init'])
+    loc = '%s:%s' % (h['file'], lets[0].get('line'))
+    cx.site('perform: let save = <%s> at %s' % (init.get('k'), loc))
+    is_dup = lambda n: n.get('k') in ('call', 'mcall') and H.callee_matches(n, ['*::Dup::dup'])
+    if init.get('k') != 'match' or not is_dup(H.peel(init['scrut'])):
+        cx.violation(PERFORM, 'save-not-a-match-on-dup', 'the saved descriptor must be decided by matching on the result of '
+                     'dup(target_fd, MIN_INTERNAL_FD, CLOEXEC): a failure other than EBADF (e.g. EMFILE) must fail the '
+                     'redirection, not be treated as "target was closed" (the command would then run with the target replaced '
+                     'and restoration would close it)', loc=loc)
+        return
+    OK, ERR = 'core::result::Result::Ok', 'core::result::Result::Err'
+    EBADF = 'yash_env::system::errno::Errno::EBADF'
+    cases = {
+        'Ok(fd)': ('variant', OK, [('any',)]),
+        'Err(EBADF)': ('variant', ERR, [('variant', EBADF, [])]),
+        'Err(other)': ('variant', ERR, [('variant', 'yash_env::system::errno::Errno::EMFILE', [])]),
+    }
+    got = {}
+    for name, val in cases.items():
+        i, arm = H.first_matching_arm(init, val)
+        cx.require(i is not None, 'arm for %s not decidable: %s' % (name, arm))
+        body = H.peel(arm['body'])
+        if body.get('k') == 'call' and body.get('ctor') and H.short(body['ctor']['def']) == 'Some':
+            got[name] = 'Some'
+        elif body.get('k') == 'path' and H.short(body.get('def') or '') == 'None':
+            got[name] = 'None'
+        elif any(x.get('k') == 'ret' for x in H.walk(body)):
+            got[name] = 'return Err'
+        else:
+            got[name] = body.get('k')
+        cx.cellcount(1)
+    cx.sample({'save table': got})
+    want = {'Ok(fd)': 'Some', 'Err(EBADF)': 'None', 'Err(other)': 'return Err'}
+    for k in want:
+        if got[k] != want[k]:
+            cx.violation(PERFORM, 'save-table:%s' % k, 'on %s the save step must yield %s, found %s' % (k, want[k], got[k]), loc=loc)
+
+
 @RS.rule('C09.R1b', 'K-ORDER', 'RedirGuard::perform_redir records the SavedFd returned by perform before returning Ok')
 def r1b(cx):
     F = cx.F
